@@ -83,6 +83,7 @@ func runC13(c *Ctx) {
 	c.r136()
 	c.r137()
 	c.r138()
+	c.r139()
 }
 
 // R13.6: pooled / shared scratch objects do not escape.
@@ -452,7 +453,7 @@ func describeValue(v ssa.Value) string {
 // R13.2
 func (c *Ctx) r132() {
 	const rule = "R13.2"
-	c.R.Rule(rule, "library packages (root, css, html, js, json, svg, xml): no SSA Store / MapUpdate whose address derives from a package-level variable outside init (element, field or the variable itself); no package-level slice/pointer passed directly (same-function def-use through slicing, conversion, φ) as an argument for which the callee's effect summary — fixpoint over module and parse/v2 functions: stores through the parameter, copy into it, append to a high-bounded reslice of it, or passing it on to such a parameter — says it may be written. Standard-library and interface callees are assumed not to write their arguments (io.Writer contract)")
+	c.R.Rule(rule, "library packages (root, css, html, js, json, svg, xml): no SSA Store / MapUpdate whose address derives from a package-level variable outside init (element, field or the variable itself); no copy() into and no append to a reslice of a value that may be such a variable (`buf = pkgBytes … append(buf[:0], v...)`); no package-level slice/pointer passed directly (same-function def-use through slicing, conversion, φ) as an argument for which the callee's effect summary — fixpoint over module and parse/v2 functions: stores through the parameter, copy into it, append to a high-bounded reslice of it, or passing it on to such a parameter — says it may be written. Standard-library and interface callees are assumed not to write their arguments (io.Writer contract)")
 	eff := c.computeEffects()
 	stores, passes := 0, 0
 	for _, rel := range libPkgs {
@@ -480,6 +481,16 @@ func (c *Ctx) r132() {
 							for _, bv := range basesOf(cc.Args[0]) {
 								if g, ok := bv.(*ssa.Global); ok && g.Pkg != nil && strings.HasPrefix(g.Pkg.Pkg.Path(), load.Mod) {
 									c.R.Bad(rule, fmt.Sprintf("%s.%s copied into in %s", g.Pkg.Pkg.Name(), g.Name(), fnName(fn)), c.P.Pos(ins.Pos()), "copy() into package-level data")
+								}
+							}
+						}
+						if bi, ok := cc.Value.(*ssa.Builtin); ok && bi.Name() == "append" && len(cc.Args) > 0 {
+							// append to a reslice writes into the spare capacity of what was sliced
+							if sl, ok := cc.Args[0].(*ssa.Slice); ok && sl.High != nil {
+								for _, bv := range basesOf(sl.X) {
+									if g, ok := bv.(*ssa.Global); ok && g.Pkg != nil && strings.HasPrefix(g.Pkg.Pkg.Path(), load.Mod) {
+										c.R.Bad(rule, fmt.Sprintf("%s.%s appended into in %s", g.Pkg.Pkg.Name(), g.Name(), fnName(fn)), c.P.Pos(ins.Pos()), "append to a reslice of a value that may be the package-level slice "+g.Name()+" overwrites its bytes in place: every later and every concurrent call sees them changed")
+									}
 								}
 							}
 						}
@@ -1289,4 +1300,54 @@ func (c *Ctx) r138() {
 	if bad == 0 {
 		c.R.OK(rule, "minify.cmdMinifier.Minify/files created by os.CreateTemp only", c.pos(fd), fmt.Sprintf("%d creations, all with per-call unique names", temps))
 	}
+}
+
+// R13.9: every minifier gives the byte it borrowed back.
+func (c *Ctx) r139() {
+	const rule = "R13.9"
+	c.R.Rule(rule, "parse.NewInput terminates the input with a NUL: when the reader exposes its bytes (bytes.Buffer, buffer.Reader) and the slice has spare capacity, the NUL overwrites the byte behind the input in the caller's memory, and Input.Restore puts it back. That byte can belong to something else of the caller's — the next record of one buffer that is minified piece by piece. Sibling agreement: in each of the six format packages every function that binds the result of parse.NewInput to a variable defers Restore on it directly afterwards (css, html, json, svg and xml did; js did not, so `Minify(\"js\", w, bytes.NewBuffer(buf[:n]))` left buf[n] = 0)")
+	n := 0
+	for _, rel := range formatPkgs {
+		pk := c.P.Pkg(rel)
+		if pk == nil {
+			continue
+		}
+		info := pk.TypesInfo
+		for _, fd := range load.FuncDecls(pk) {
+			if fd.Body == nil {
+				continue
+			}
+			for i, st := range fd.Body.List {
+				as, ok := st.(*ast.AssignStmt)
+				if !ok || len(as.Lhs) != 1 || len(as.Rhs) != 1 {
+					continue
+				}
+				ce, ok := ast.Unparen(as.Rhs[0]).(*ast.CallExpr)
+				if !ok || calleeName(info, ce) != load.ParseMod+".NewInput" {
+					continue
+				}
+				id, ok := as.Lhs[0].(*ast.Ident)
+				if !ok {
+					continue
+				}
+				obj := info.Defs[id]
+				n++
+				restored := false
+				for _, nx := range fd.Body.List[i+1:] {
+					ds, ok := nx.(*ast.DeferStmt)
+					if !ok {
+						continue
+					}
+					if sel, ok := ds.Call.Fun.(*ast.SelectorExpr); ok && sel.Sel.Name == "Restore" {
+						if rid, ok := ast.Unparen(sel.X).(*ast.Ident); ok && info.Uses[rid] == obj {
+							restored = true
+						}
+					}
+				}
+				c.R.Check(restored, rule, fmt.Sprintf("%s.%s/input %s is restored", pk.Name, load.FuncName(fd), id.Name), c.pos(as), "defer "+id.Name+".Restore()",
+					"the input is terminated with a NUL inside the caller's buffer and the byte is never put back: a caller that minifies consecutive pieces of one buffer finds the first byte of the next piece replaced by 0")
+			}
+		}
+	}
+	c.R.Floor(rule, "inputs created with parse.NewInput in the format packages", n, 6)
 }
